@@ -349,8 +349,12 @@ func isNamedCode(c uint8) bool {
 var badTargets = []string{"example.com", "example.com:", "example.com:65536", "example.com:99999999999999999999", "example.com:http", "example.com:-1", "example.com:8o", "[::1]", "[::1]:", "1.2.3.4"}
 
 func genPlan(rt *rapid.T) plan {
+	return genPlanOf(rt, []string{"socks5", "socks5", "http", "http", "ssnone"})
+}
+
+func genPlanOf(rt *rapid.T, protos []string) plan {
 	var p plan
-	p.Proto = rapid.SampledFrom([]string{"socks5", "socks5", "http", "http", "ssnone"}).Draw(rt, "proto")
+	p.Proto = rapid.SampledFrom(protos).Draw(rt, "proto")
 	p.Peer = rapid.SampledFrom([]string{"repo", "raw"}).Draw(rt, "peer")
 	http := p.Proto == "http"
 
